@@ -137,7 +137,11 @@ def work_hist(arg):
             ok_read = s["last"] == "0" and s["ferr"] == "0" and s["rclose"] == "1"
             res["outcomes"].add((h.split(",")[0][0], ok_read))
             bad = None
-            if ok_read:
+            if ok_read and len(got) <= limit and got == content[:len(got)]:
+                # the sequence ended before the damaged chunk was needed (a chunk request moved the context to the end of
+                # the data; files with the uncompressed-source flag have no data digest to fail at close): C15 makes no claim
+                pass
+            elif ok_read:
                 bad = "corrupted-chunk-read-with-success"
             elif len(got) > limit or got != content[:len(got)]:
                 after = limit + pb.chunks[chunk].ulen if chunk > 0 else 0
